@@ -1,7 +1,18 @@
 pub mod c12;
+pub mod satcalls;
+pub mod statq;
 
 use crate::framework::Property;
 
 pub fn all() -> Vec<Box<dyn Property>> {
-    vec![Box::new(c12::C12)]
+    vec![
+        Box::new(statq::StatQ(statq::Mode::C01)),
+        Box::new(statq::StatQ(statq::Mode::C02)),
+        Box::new(statq::StatQ(statq::Mode::C03)),
+        Box::new(statq::StatQ(statq::Mode::C04)),
+        Box::new(statq::StatQ(statq::Mode::C07)),
+        Box::new(c12::C12),
+        Box::new(satcalls::C17),
+        Box::new(satcalls::C18),
+    ]
 }
